@@ -1,7 +1,90 @@
-import VermouthModel.Proto
-open Proto
+import VermouthModel.C09
+open Proto C09
 
-/-- placeholder driver for C09: replaced when the model is written -/
-def handle (_ : Unit) (_ : List Tok) : Unit × String := ((), "bad-op")
+/-
+requests
+  avg <entry> <selfWeight> <ffVar> <ignoreMissing> [ bead* ]
+    entry       0 = do_average_bead(mol, ignore, weight=selfWeight)   (selfWeight: - | xname)
+                1 = DoAverageBead(ignore, selfWeight).run_molecule(mol) (selfWeight: - | 0 (False) | xname)
+    ffVar       - | xname      (force_field.variables['center_weight'])
+    bead        [ graph weights ]   graph: - | [ atom* ]   weights: - | [ [ key rat ]* ]
+    atom        [ key pos [ [ xname rat ]* ] ]   pos: - | [ rat rat rat ]
+    rat         [ num den ]
+responses
+  keyerror | valueerror | ok [ res* ]    res: - (untouched) | [ ] (NaN) | [ qx qy qz ] (units of 2^-30)
+-/
+
+def ratOf (t : Tok) : Option Rat := do
+  match ← t.list? with
+  | [n, d] =>
+      let dn ← d.nat?
+      if dn = 0 then none else pure (mkRat (← n.int?) dn)
+  | _ => none
+
+def posOf (t : Tok) : Option (Option (V3 Rat)) :=
+  match t with
+  | Tok.none => some none
+  | Tok.list [a, b, c] => do pure (some ⟨← ratOf a, ← ratOf b, ← ratOf c⟩)
+  | _ => none
+
+def attrOf (t : Tok) : Option (String × Rat) := do
+  match ← t.list? with
+  | [n, v] => pure (← n.str?, ← ratOf v)
+  | _ => none
+
+def atomOf (t : Tok) : Option (Atom Rat) := do
+  match ← t.list? with
+  | [k, p, as] => pure { key := ← k.int?, pos := ← posOf p, attrs := ← (← as.list?).mapM attrOf }
+  | _ => none
+
+def wentryOf (t : Tok) : Option (Int × Rat) := do
+  match ← t.list? with
+  | [k, v] => pure (← k.int?, ← ratOf v)
+  | _ => none
+
+def beadOf (t : Tok) : Option (Bead Rat) := do
+  match ← t.list? with
+  | [g, w] =>
+      let graph ← match g with
+        | Tok.none => pure none
+        | Tok.list l => do pure (some (← l.mapM atomOf))
+        | _ => none
+      let weights ← match w with
+        | Tok.none => pure none
+        | Tok.list l => do pure (some (← l.mapM wentryOf))
+        | _ => none
+      pure { graph := graph, weights := weights }
+  | _ => none
+
+def encRes : Option (Option (V3 Rat)) → String
+  | none => "-"
+  | some none => "[ ]"
+  | some (some p) => encList [encInt (quant p.x), encInt (quant p.y), encInt (quant p.z)]
+
+def encOutcome : Outcome Rat → String
+  | .keyError => "keyerror"
+  | .valueError => "valueerror"
+  | .ok l => "ok " ++ encList (l.map encRes)
+
+def handle (_ : Unit) (toks : List Tok) : Unit × String :=
+  let r : Option String :=
+    match toks with
+    | [Tok.str "avg", entry, selfW, ffv, ign, beads] => do
+        let e ← entry.nat?
+        let ffVar ← ffv.optStr?
+        let ignore := (← ign.nat?) != 0
+        let mol ← (← beads.list?).mapM beadOf
+        if e = 0 then
+          let w ← selfW.optStr?
+          pure (encOutcome (doAverageBeadQ mol ignore w))
+        else
+          let self ← match selfW with
+            | Tok.none => pure WeightArg.unset
+            | Tok.int 0 => pure WeightArg.off
+            | Tok.str n => pure (WeightArg.attr n)
+            | _ => none
+          pure (encOutcome (runMoleculeQ self ffVar ignore mol))
+    | _ => none
+  ((), r.getD "bad-op")
 
 def main : IO Unit := runDriver handle ()
